@@ -104,6 +104,8 @@ def checked(e):
     a.checked_add(b) / checked_sub / checked_mul -> ('Add' | 'Sub' | 'Mul', a, b)"""
     e = e.strip()
     p = unwrap_payload(e, "Some")
+    if p is None and e.k == "call" and e.a and e.x["path"].startswith("std::option::Option::<T>::") and e.x["path"].rsplit("::", 1)[-1] in ("expect", "unwrap"):
+        p = e.a[0]      # `a.checked_mul(b).expect("..")`: the product, with a panic where it would wrap
     if p is not None:
         p = p.strip()
         if p.k == "call" and len(p.a) == 2 and p.x["path"].rsplit("::", 1)[-1] in ("checked_add", "checked_sub", "checked_mul") and "num::" in p.x["path"]:
